@@ -475,11 +475,23 @@ def scale(n):
     return max(20, int(n * float(os.environ.get("VERIF_SCALE", "1") or 1)))
 
 
+def batches(strategy, check, ctx, total, rec, tag, batch=8000):
+    """Several seeded Hypothesis runs of at most ``batch`` examples feeding one recorder; stops after a violation."""
+    i = 0
+    while total > 0 and not rec.violations:
+        n = min(batch, total)
+        core.hyp_shard(strategy, check, ctx, n, rec=rec, tag="%s%d" % (tag, i) if i else tag)
+        total -= n
+        i += 1
+
+
 def run_shard(spec, ctx):
+    # single-process cost: esc ~9.5 ms (size 14) / ~11 ms (size 20) per case, tset ~6.5 ms; 16 parallel workers on the
+    # build machine cost about twice that per case (plus as much system time), so quick = 16 x (1100 + 300) cases
+    # ran in 55-80 s there with other jobs running
     rec = core.Rec()
-    core.hyp_shard(esc_cases(ctx.pick(14, 20)), check_case, ctx, scale(ctx.pick(1100, 16000)), rec=rec, tag="esc")
-    if not rec.violations:
-        core.hyp_shard(tset_cases(not ctx.quick), check_case, ctx, scale(ctx.pick(300, 5000)), rec=rec, tag="tset")
+    batches(esc_cases(ctx.pick(14, 20)), check_case, ctx, scale(ctx.pick(1100, 12000)), rec, "esc")
+    batches(tset_cases(not ctx.quick), check_case, ctx, scale(ctx.pick(300, 3000)), rec, "tset")
     return rec
 
 
